@@ -851,8 +851,11 @@ TPanic ==
          props == IF d \in {"scan", "freshwalk", "iterscan", "iterwalk", "new_iterator"}
                   THEN <<"C09", "C04", "C03">>
                   ELSE IF d = "get" THEN <<"C09", "C01", "C03">>
-                  ELSE <<"C09">> IN
-     JudgeAnd(ObsViol(props, "Panic", [keys |-> <<>>, at |-> 0]))
+                  ELSE <<"C09">>
+         \* after an injected I/O error a panic (of the worker: everything waiting for it hangs)
+         \* is not the reported error C08 asks for
+         props2 == IF FaultMode THEN props \o <<"C08">> ELSE props IN
+     JudgeAnd(ObsViol(props2, "Panic", [keys |-> <<>>, at |-> 0]))
   /\ Step(FALSE, "")
   /\ UNCHANGED <<coreVars, runInfo, keep, lastIter, manNo, isOpen, flushed, gpins, deferred, ackStore, inflight>>
 
